@@ -1,5 +1,6 @@
 """C11 — Authenticator data is parsed exactly and completely."""
 import cbor2
+import hashlib
 
 from .. import cases, corr, common
 from ..check import Result
@@ -106,7 +107,7 @@ def work(tasks, idx):
     creds = _auth.creds()
     for seed, n in tasks:
         rng = common.Rng(seed)
-        if n < 0:
+        if n == -1:
             # the systematic stream: every semantic tag over every payload, given to parse_cbor itself, as the credential key and
             # as the extension data - refused (or decoded), never with an exception from outside the hierarchy
             from webauthn.helpers import parse_cbor as _pc
@@ -122,6 +123,68 @@ def work(tasks, idx):
                         res.violations.append({"why": f"{op} on tagged CBOR raised {code.get('nonlib') or code.get('lib') or code.get('msg')}: {str(code.get('msg'))[:120]}",
                                                "b": junk.hex(), "match": {"op": op, "rule": "library-exception"}})
                 res.nontrivial.add(junk)
+            continue
+        if n <= -2:
+            # the size lattice (deterministic): a field is however long the layout says. Key, credential-id and extension sizes
+            # at and around every "round" number a window, buffer or limit could be set to (2^j, 3*2^j, 10^j), each laid out
+            # canonically with and without the other optional part, and cut one byte short / extended by one byte.
+            part = (-n - 2) % 300      # 0: keys, 1: ids, 2: extensions
+            sizes = set()
+            for j in range(0, 17):
+                for m in (1 << j, 3 << j, 5 << j):
+                    sizes.update((m - 1, m, m + 1, m + 24))
+            sizes.update(10 ** j + d for j in range(1, 5) for d in (-1, 0, 1))
+            top = {0: 70000, 1: 1023, 2: 70000}[part]
+            if part == 1:
+                sizes.update(range(0, 1024, 1 if n < -100 else 7))
+            for L in sorted(x for x in sizes if 0 <= x <= top):
+                for with_other in (False, True):
+                    rp = hashlib.sha256(b"lattice-%d-%d" % (part, L)).digest()
+                    fill = hashlib.shake_256(b"lattice-fill-%d-%d" % (part, L)).digest(max(L, 1))[:L]
+                    counter, aaguid = L * 2654435761 % 2 ** 32, hashlib.md5(b"%d" % L).digest()
+                    cose, cid = creds[L % len(creds)].cose(), hashlib.shake_256(b"id").digest(16 + L % 48)
+                    extv = {"credProtect": 2}
+                    if part == 0:
+                        if L < 1:
+                            continue
+                        cose = cbor2.dumps({1: 3, 3: -257, -1: bytes([fill[0] | 0x80]) + fill[1:], -2: b"\x01\x00\x01"})
+                        flags = 0x41 | (0x80 if with_other else 0)
+                    elif part == 1:
+                        cid = fill
+                        flags = 0x45 | (0x80 if with_other else 0)
+                    else:
+                        extv = {"credBlob": fill, "credProtect": 1}
+                        flags = 0x81 | (0x40 if with_other else 0)
+                    ext = cbor2.dumps(extv, canonical=True) if flags & 0x80 else None
+                    if not flags & 0x40:
+                        cose = None
+                    ad = core.auth_data(rp, flags, counter, aaguid=aaguid, cred_id=cid, cose=cose, ext=ext)
+                    exp = {"rp_id_hash": rp.hex(), "flags": {"up": bool(flags & 1), "uv": bool(flags & 4), "be": bool(flags & 8),
+                                                             "bs": bool(flags & 16), "at": bool(flags & 64), "ed": bool(flags & 128)},
+                           "sign_count": str(counter),
+                           "attested": {"aaguid": aaguid.hex(), "credential_id": cid.hex(), "public_key": cose.hex()} if cose else None,
+                           "extensions": ext.hex() if ext else None}
+                    for label, b in (("canonical", ad), ("truncated", ad[:-1]), ("suffix", ad + b"\x00")):
+                        code = cases.code_parse_auth_data(b)
+                        res.evaluations += 1
+                        res.count("lattice-%s:%s:%s" % (("key", "id", "ext")[part], label, corr.kind(code)))
+                        if len(b) <= 12000 and label == "canonical":
+                            tie.check({"op": "parse_auth_data", "b": b.hex()}, code, label=["lattice", label, flags])
+                        how = {"part": ("key", "id", "ext")[part], "size": L, "with_other_part": with_other, "len": len(b),
+                               "b_head": b[:120].hex(), "b_sha256": hashlib.sha256(b).hexdigest()}
+                        if len(b) <= 4096:
+                            how["b"] = b.hex()
+                        if code["k"] == "oom" or (code["k"] == "reject" and ("nonlib" in code or code.get("lib") not in LIB)):
+                            res.violations.append({"why": f"parser raised {code.get('nonlib') or code.get('lib')}: {str(code.get('msg'))[:120]}", **how,
+                                                   "match": {"op": "parse_auth_data", "rule": "library-exception"}})
+                        elif label == "canonical" and (code["k"] != "accept" or code["record"] != exp):
+                            res.violations.append({"why": f"canonical authenticator data with a {how['part']} part of {L} bytes not parsed exactly: "
+                                                          f"{str({k: v for k, v in code.items() if k != 'record'})[:200]}", **how,
+                                                   "match": {"op": "parse_auth_data", "rule": "exact", "size": "lattice"}})
+                        elif label != "canonical" and code["k"] == "accept":
+                            res.violations.append({"why": f"{label} authenticator data accepted", **how,
+                                                   "match": {"op": "parse_auth_data", "rule": label, "size": "lattice"}})
+                    res.nontrivial.add(ad[:64] + bytes([part]) + L.to_bytes(4, "big"))
             continue
         for _ in range(n):
             c = rng.choice(creds)
@@ -226,7 +289,7 @@ def work(tasks, idx):
 
 def run(ctx, res):
     n = 1200 if ctx.quick() else 30000
-    tasks = [(ctx.seed * 15485863 + i, n) for i in range(16)] + [(0, -1)]
+    tasks = [(ctx.seed * 15485863 + i, n) for i in range(16)] + [(0, -1)] + [(0, -2 - p - (0 if ctx.quick() else 300)) for p in range(3)]
     work.driver_ok = ctx.driver_ok
     corr.merge(res, corr.parallel(work, tasks))
     res.rule = ("authenticator data laid out per the spec over all flag bytes, RP ID hashes, counters, AAGUIDs, credential-id lengths "
